@@ -25,6 +25,10 @@ import (
 
 var active atomic.Pointer[Sim]
 
+// maxSlice: steps a task may run without reaching a scheduling point before it
+// is preempted (so that simulated time, sleepers and deadlines make progress).
+const maxSlice = 20000
+
 // Progress is bumped on every scheduler iteration; a watchdog outside the
 // bubble reads it with the real clock.
 var Progress atomic.Int64
@@ -40,22 +44,25 @@ const (
 	StDone
 	StPanicked
 	StTrapped // step bound exceeded
+	StSettle  // harness: resume me once every other task is done, blocked for good or parked on a lock
 )
 
 func (s State) String() string {
-	return [...]string{"ready", "waitlock", "running", "blocked-external", "sleeping", "done", "panicked", "trapped"}[s]
+	return [...]string{"ready", "waitlock", "running", "blocked-external", "sleeping", "done", "panicked", "trapped", "settling"}[s]
 }
 
 type Task struct {
 	ID     int
 	Name   string
 	Host   bool
+	Aux    bool // harness helper (canceller): never reported as leftover, does not keep a run alive
 	Parent int
 
 	goid      int64
 	rgoid     int64
 	state     State
 	site      string
+	blockSite string
 	resume    chan struct{}
 	wakeAt    time.Time
 	steps     int64
@@ -110,11 +117,14 @@ type Sim struct {
 	last   *Task
 	kick   chan struct{}
 
-	steps     int64
-	charged   int64
-	quantumOn bool
-	quantum   int64
-	armedN    int64
+	steps         int64
+	charged       int64
+	quantumOn     bool
+	quantum       int64
+	armedN        int64
+	fastDecisions int64
+	jumped        time.Duration // simulated time skipped by explicit clock jumps while tasks were ready
+	sliceSteps    int64
 
 	aborting    atomic.Bool
 	free        bool
@@ -301,6 +311,9 @@ func Go(f func()) {
 	s.spawn("", false, f)
 }
 
+// GoAux starts a harness helper task.
+func (s *Sim) GoAux(name string, f func()) { s.spawn(name, false, f).Aux = true }
+
 // GoNamed starts a task from harness code.
 func (s *Sim) GoNamed(name string, host bool, f func()) { s.spawn(name, host, f) }
 
@@ -314,7 +327,72 @@ func (s *Sim) me() *Task {
 	return t
 }
 
+// fastContinue: when the yielding task is the only one that could run and no
+// timer or deadline is due within the CPU time accrued so far, the scheduler's
+// decision is forced (n == 1, nothing recorded), so the task simply continues.
+// Whether this path is taken depends on simulator state only, hence replays.
+func (s *Sim) fastContinue(t *Task, site string) bool {
+	if t != s.cur || s.hostDone || s.outcome != "" {
+		return false
+	}
+	s.mu.Lock()
+	defer s.mu.Unlock()
+	var earliest time.Time
+	sleepers := 0
+	for _, o := range s.tasks {
+		if o == t {
+			continue
+		}
+		switch o.state {
+		case StReady, StRunning, StPanicked, StTrapped:
+			return false
+		case StBlocked:
+			// It may just have been released by the caller (rendezvous) and be
+			// on its way to its wake point: only the scheduler can order that.
+			return false
+		case StWaitLock:
+			if o.waitLock.grantable(o) {
+				return false
+			}
+		case StSleeping:
+			sleepers++
+			if earliest.IsZero() || o.wakeAt.Before(earliest) {
+				earliest = o.wakeAt
+			}
+		}
+	}
+	if sleepers > 0 && s.cfg.ClockJumps {
+		return false
+	}
+	debt := time.Duration(s.steps-s.charged) * s.cfg.StepCost
+	now := time.Now().Add(debt)
+	if sleepers > 0 && !now.Before(earliest) {
+		return false
+	}
+	for _, dl := range s.deadlines {
+		if !s.fair(now).Before(dl) {
+			return false
+		}
+	}
+	if now.Sub(s.start) > s.cfg.MaxSimTime {
+		return false
+	}
+	s.fastDecisions++
+	if s.fastDecisions&0xfff == 0 {
+		Progress.Add(1)
+		if s.fastDecisions > 100_000_000 {
+			return false
+		}
+	}
+	t.site = site
+	s.hashInts(site, t.ID, 1)
+	return true
+}
+
 func (s *Sim) park(t *Task, st State, site string) {
+	if st == StReady && s.fastContinue(t, site) {
+		return
+	}
 	s.mu.Lock()
 	t.state = st
 	t.site = site
@@ -341,6 +419,64 @@ func (s *Sim) Yield(site string) {
 	s.park(t, StReady, site)
 }
 
+// Settle parks the calling (harness) task until nothing else can run: every
+// other task is done, blocked in an un-intercepted operation, or waiting for
+// a modelled lock. Sleeping tasks are waited for up to maxWait of simulated time.
+func (s *Sim) Settle(maxWait time.Duration) {
+	if s.free || s.aborting.Load() {
+		return
+	}
+	t := s.me()
+	if t == nil {
+		return
+	}
+	s.mu.Lock()
+	t.wakeAt = time.Now().Add(maxWait)
+	s.mu.Unlock()
+	s.park(t, StSettle, "settle")
+}
+
+// Others describes every task other than the caller that is not done (aux tasks excluded).
+func (s *Sim) Others() []TaskInfo {
+	me := s.me()
+	s.mu.Lock()
+	defer s.mu.Unlock()
+	var out []TaskInfo
+	for _, t := range s.tasks {
+		if t == me || t.Aux || t.state == StDone {
+			continue
+		}
+		out = append(out, TaskInfo{ID: t.ID, Name: t.Name, State: t.state.String(), Site: t.site, Steps: t.steps})
+	}
+	return out
+}
+
+// LocksHeld lists modelled locks that currently have a holder.
+func (s *Sim) LocksHeld() []string {
+	s.mu.Lock()
+	defer s.mu.Unlock()
+	var out []string
+	for _, l := range s.locks {
+		if h := l.holders(); h != "free" {
+			out = append(out, l.name+": "+h)
+		}
+	}
+	return out
+}
+
+// LockSites names held locks by stable names (acquisition site functions).
+func (s *Sim) LockSites() []string {
+	s.mu.Lock()
+	defer s.mu.Unlock()
+	var out []string
+	for _, l := range s.locks {
+		if h := l.holderSites(); h != "" {
+			out = append(out, h)
+		}
+	}
+	return out
+}
+
 // Yield is a scheduling point (no-op outside a simulation).
 func Yield(site string) {
 	if s := active.Load(); s != nil {
@@ -361,6 +497,18 @@ func Woke() {
 		return
 	}
 	s.park(t, StReady, "woke")
+}
+
+// Blocking is inserted before every channel operation: it names the site for
+// the case that the operation blocks for good.
+func Blocking() {
+	s := active.Load()
+	if s == nil || s.free || s.aborting.Load() {
+		return
+	}
+	if t := s.cur; t != nil {
+		t.blockSite = callerFunc()
+	}
 }
 
 // Sleeping announces an imminent time.Sleep(d).
@@ -413,6 +561,16 @@ func Step() {
 		s.trap(t)
 		return
 	}
+	s.sliceSteps++
+	if s.sliceSteps >= maxSlice {
+		// Forced preemption (deterministic): a task that never reaches a
+		// scheduling point must still let simulated time pass.
+		s.sliceSteps = 0
+		if me := s.me(); me != nil {
+			s.park(me, StReady, "timeslice")
+		}
+		return
+	}
 	if s.quantumOn {
 		s.quantum--
 		if s.quantum <= 0 {
@@ -456,11 +614,17 @@ func (s *Sim) DisarmStepBound() {
 }
 
 // SetDeadline ends the run as "deadline:<name>" if simulated time passes d from now.
+//
+// Deadlines are measured on the fair clock: simulated time minus the time the
+// scheduler itself skipped by choosing a clock jump while tasks were ready, so
+// that a deschedule chosen by the simulator is never held against the product.
 func (s *Sim) SetDeadline(name string, d time.Duration) {
 	s.mu.Lock()
-	s.deadlines[name] = time.Now().Add(d)
+	s.deadlines[name] = time.Now().Add(d - s.jumped)
 	s.mu.Unlock()
 }
+
+func (s *Sim) fair(t time.Time) time.Time { return t.Add(-s.jumped) }
 
 func (s *Sim) ClearDeadline(name string) {
 	s.mu.Lock()
@@ -555,14 +719,19 @@ loop:
 		if s.cur != nil && s.cur.state == StRunning {
 			s.cur.state = StBlocked
 			s.cur.site = "external"
+			if s.cur.blockSite != "" {
+				s.cur.site = "chan:" + s.cur.blockSite
+			}
 		}
 		s.cur = nil
 
-		var ready []*Task
+		var ready, settling []*Task
 		var sleepers, hostLive, live int
 		var earliest time.Time
 		for _, t := range s.tasks {
 			switch t.state {
+			case StSettle:
+				settling = append(settling, t)
 			case StPanicked:
 				s.end("crash", fmt.Sprintf("task %d (%s) panicked: %s", t.ID, t.Name, t.panicVal), "panic:"+panicCategory(t.panicVal)+"@"+strings.Join(firstN(t.panicStack, 2), "<"))
 			case StTrapped:
@@ -579,12 +748,15 @@ loop:
 					ready = append(ready, t)
 				}
 			case StSleeping:
+				if t.Aux && s.hostDone {
+					break
+				}
 				sleepers++
 				if earliest.IsZero() || t.wakeAt.Before(earliest) {
 					earliest = t.wakeAt
 				}
 			}
-			if t.state != StDone && t.state != StPanicked {
+			if t.state != StDone && t.state != StPanicked && !t.Aux {
 				live++
 				if t.Host {
 					hostLive++
@@ -596,7 +768,7 @@ loop:
 			break loop
 		}
 		for _, dl := range sortedDeadlines(s.deadlines) {
-			if now.After(dl.at) {
+			if s.fair(now).After(dl.at) {
 				s.end("deadline", fmt.Sprintf("simulated deadline %q passed", dl.name), dl.name)
 			}
 		}
@@ -606,7 +778,7 @@ loop:
 		}
 		if hostLive == 0 && !s.hostDone {
 			s.hostDone = true
-			s.drainAt = now
+			s.drainAt = s.fair(now)
 			s.Logf("host done; draining")
 			n := s.cfg.DrainSteps
 			for _, t := range s.tasks {
@@ -616,7 +788,7 @@ loop:
 				}
 			}
 		}
-		if s.hostDone && now.Sub(s.drainAt) > s.cfg.DrainTime {
+		if s.hostDone && s.fair(now).Sub(s.drainAt) > s.cfg.DrainTime {
 			s.mu.Unlock()
 			break loop // leftover tasks are reported by finish()
 		}
@@ -631,6 +803,14 @@ loop:
 			break loop
 		}
 
+		if len(ready) == 0 && len(settling) > 0 {
+			// resume a settling task once nothing else can run (or its patience is over)
+			if sleepers == 0 || !now.Before(settling[0].wakeAt) {
+				ready = append(ready, settling[0])
+			} else if settling[0].wakeAt.Before(earliest) {
+				earliest = settling[0].wakeAt
+			}
+		}
 		if len(ready) == 0 {
 			if live == 0 {
 				s.mu.Unlock()
@@ -639,16 +819,26 @@ loop:
 			s.mu.Unlock()
 			// Nothing runnable: let the fake clock run to the next timer.
 			horizon := time.Hour
-			for _, dl := range s.deadlines {
-				if d := dl.Sub(now) + time.Nanosecond; d < horizon {
-					horizon = d
+			if sleepers > 0 {
+				for _, dl := range s.deadlines {
+					if d := dl.Sub(s.fair(now)) + time.Nanosecond; d < horizon {
+						horizon = d
+					}
+				}
+				for _, st := range settling {
+					if d := st.wakeAt.Sub(now) + time.Nanosecond; d < horizon && d > 0 {
+						horizon = d
+					}
+				}
+				if s.hostDone {
+					if d := s.cfg.DrainTime - s.fair(now).Sub(s.drainAt) + time.Nanosecond; d < horizon {
+						horizon = d
+					}
 				}
 			}
-			if s.hostDone {
-				if d := s.cfg.DrainTime - now.Sub(s.drainAt) + time.Nanosecond; d < horizon {
-					horizon = d
-				}
-			}
+			// With no announced sleeper nothing the simulator knows of can ever
+			// happen again: wait one full horizon for an un-announced timer,
+			// then it is a deadlock (or, after the host returned, the end of the drain).
 			select {
 			case <-s.kick:
 			default:
@@ -698,6 +888,7 @@ loop:
 		}
 		if clockOpt && i == n-1 {
 			s.Logf("clock jump %v", earliest.Sub(now))
+			s.jumped += earliest.Sub(now)
 			s.mu.Unlock()
 			time.Sleep(earliest.Sub(now))
 			continue
@@ -840,9 +1031,13 @@ func (s *Sim) deadlockSig() string {
 	for _, t := range s.tasks {
 		switch t.state {
 		case StWaitLock:
-			parts = append(parts, fmt.Sprintf("lock:%s<%s", t.waitLock.name, t.waitLock.holderSites()))
+			nm := t.waitLock.name
+			if i := strings.IndexByte(nm, '@'); i >= 0 {
+				nm = nm[i+1:]
+			}
+			parts = append(parts, fmt.Sprintf("lock:%s<%s", nm, t.waitLock.holderSites()))
 		case StBlocked:
-			parts = append(parts, "ext:"+t.Name)
+			parts = append(parts, "ext:"+t.site)
 		}
 	}
 	sort.Strings(parts)
@@ -873,7 +1068,7 @@ func (s *Sim) finish() *Result {
 	s.mu.Lock()
 	for _, t := range s.tasks {
 		ti := TaskInfo{ID: t.ID, Name: t.Name, State: t.state.String(), Site: t.site, Steps: t.steps}
-		if t.state != StDone && t.state != StPanicked {
+		if t.state != StDone && t.state != StPanicked && !t.Aux {
 			if t.state == StBlocked {
 				if stacks == nil {
 					stacks = allStacks()
